@@ -208,6 +208,7 @@ class K3State:
             '__chain': VFunc('__chain', impl=self.chain),
             'nothing': NONE,
             '_deque': VFunc('_deque', impl=lambda I, a, k, n: VRec('k3::deque', {'items': a[0]})),
+            '_loads': VFunc('_loads', impl=self.loads),
         }
         for fname in self.em.functions:
             if fname not in e and fname != self.spec.get('fname', 'render'):
@@ -383,6 +384,24 @@ class K3State:
 
     def chain(self, I, args, kwargs, node):
         raise Unsupported('__chain')
+
+    def loads(self, I, args, kwargs, node):
+        """pickle.loads of the constant the compiler embedded for a deferred ExpressionError:
+        evaluated for real (the constant is concrete)"""
+        import pickle
+        import sys
+        from .vc import SRC
+        if SRC not in sys.path:
+            sys.path.insert(0, SRC)
+        exc = pickle.loads(models.concretise(args[0]))
+        tok = exc.args[1]
+        from .values import VToken
+        vt = VToken(z3.StringVal(str.__str__(tok)), z3.IntVal(tok.pos),
+                    VStr(tok.source) if tok.source is not None else NONE, VStr(tok.filename or ''))
+        e = VExc(type(exc), [VStr(exc.args[0]), vt])
+        e.extra['origin'] = ('deferred', tok.pos)
+        I.ghost['raised_exc'] = e
+        return e
 
     def external_call(self, I, callee, args, kwargs):
         """a call that leaves the render function: a macro's render function (same template or
@@ -876,6 +895,12 @@ def k3_prims():
             z3.And(z3.Select(m.has, kq), z3.Not(z3.Or(excl + [z3.BoolVal(False)]))),
             z3.And(present, value == z3.Select(m.val, kq)))))
 
+    def template_pos(I, a, k, n):
+        return VInt(I.vc.c.ghost['template'].index(_c(a[0])))
+
+    def token_now(I, a, k, n):
+        return I.env.get('__token', NONE)
+
     def in_local(I, a, k, n):
         lo = I.ghost['econtext'].fields['local']
         return VBool(z3.Select(lo.has, models.strterm(a[0])))
@@ -921,7 +946,7 @@ def k3_prims():
     return {f.__name__: (lambda I, a, k, n, f=f: f(I, a, k, n)) for f in
             (S, S0, piece, out, val, evals, holes, trace, raised, exc_in, exc_is_exception, quoted,
              converted, visible, UNBOUND, visible0, visible_at, DEFAULT, local, rlen, ritem, acc, out_at,
-             scope_frame, ext_count, ext_last, ext_raised, ext_callee, ext_result, ext_arg, ext_out, ext_i18n, is_stream,
+             scope_frame, template_pos, token_now, ext_count, ext_last, ext_raised, ext_callee, ext_result, ext_arg, ext_out, ext_i18n, is_stream,
              is_rcontext, is_scope_copy, scope_arg_visible, attr_of, module_function, globals_visible,
              in_local, translate_arg, translate_result, normalize, i18n0,
              i18n_now, i18n_at, global_now, handler_calls, handler_configured,
@@ -978,9 +1003,39 @@ def schema_contracts(specs):
     for s in specs:
         r = compiled[s['id']]
         if 'source' not in r:
-            c = Contract('k3::%s' % s['id'], params={}, source=('def schema():\n    raise_compile_error()\n', 'schema'),
+            exp = s.get('expect_error')
+            static = []
+            wit = {'template': s['text'], 'options': s.get('options', {}),
+                   'compile_result': {k: v for k, v in r.items() if k != 'trace'}}
+            if exp is None:
+                static.append(('%s.compiles' % s['id'], False, 'the schema template compiles', wit))
+            else:
+                tok = r.get('token') or {}
+                want_pos = s['text'].index(exp['token'])
+                static += [
+                    ('%s.rejected.class' % s['id'], exp['class'] in r.get('mro', []) and
+                     'TemplateError' in r.get('mro', []),
+                     'compilation raises %s (a TemplateError)' % exp['class'], wit),
+                    ('%s.rejected.token' % s['id'], tok.get('s') == exp['token'],
+                     'the error token is %r' % exp['token'], wit),
+                    ('%s.rejected.offset' % s['id'], tok.get('pos') == want_pos and
+                     bool(tok.get('source_is_body')),
+                     'source[offset:offset+len(token)] is the offending text (offset %d)' % want_pos, wit),
+                ]
+            c = Contract('k3::%s' % s['id'], params={}, source=('def schema():\n    pass\n', 'schema'),
                          kind='K3', serves=s.get('serves', []),
-                         ghost={'compile_error': r, 'template': s['text']})
+                         ghost={'compile_error': r, 'template': s['text'], 'static_checks': static,
+                                'k3_static_only': True})
+            out.append(c)
+            continue
+        if s.get('expect_error'):
+            c = Contract('k3::%s' % s['id'], params={}, source=('def schema():\n    pass\n', 'schema'),
+                         kind='K3', serves=s.get('serves', []),
+                         ghost={'template': s['text'], 'k3_static_only': True, 'static_checks': [
+                             ('%s.rejected.class' % s['id'], False,
+                              'compilation raises %s' % s['expect_error']['class'],
+                              {'template': s['text'], 'options': s.get('options', {}),
+                               'observed': 'compiled without error'})]})
             out.append(c)
             continue
         em = Emitted(r['source'], s.get('fname', 'render'))
